@@ -72,7 +72,12 @@ pub fn break_equal(last_string: &str) -> bool {
 pub fn break_concat(last_string: &str) -> bool {
     if let Some('.') = last_string.chars().last() {
         true
-    } else if let Some(first_char) = last_string.chars().next() {
+    } else if let Some(first_char) = last_string
+        // a negative number is written with its sign
+        .trim_start_matches('-')
+        .chars()
+        .next()
+    {
         first_char == '.' || first_char.is_ascii_digit()
     } else {
         false
